@@ -73,11 +73,10 @@ theorem c04_written_text (ext : Ext) (hext : ExtOK ext) (v : JV) (hl : valueLits
     obtain ⟨r, hr, hd⟩ := ser_value ext hext (.pretty indent) hws v FState.init hl
     exact ⟨r.bufs, by simp [serPretty, hr, Except.map], hd⟩
 
-/-- `[ {"k":[]} , "\u001a" ]` printed with indent `\t`: brackets, separators and whitespace only where
-    the grammar allows them -/
-example : (serPretty ext0 [0x09] (ofValue (.arr [.obj [([0x6b], .arr [])], .str [0x1a]]))).map List.flatten = .ok
-    [0x5b, 0x0a, 0x09, 0x7b, 0x0a, 0x09, 0x09, 0x22, 0x6b, 0x22, 0x3a, 0x20, 0x5b, 0x5d, 0x0a, 0x09, 0x7d, 0x2c, 0x0a, 0x09,
-     0x22, 0x5c, 0x75, 0x30, 0x30, 0x31, 0x61, 0x22, 0x0a, 0x5d] := rfl
+/-- `[{"k":[]},"\u001a"]`, compact (the pretty spelling is deliberately not pinned here: its layout is
+    C03's subject) -/
+example : (serCompact ext0 (ofValue (.arr [.obj [([0x6b], .arr [])], .str [0x1a]]))).map List.flatten = .ok
+    [0x5b, 0x7b, 0x22, 0x6b, 0x22, 0x3a, 0x5b, 0x5d, 0x7d, 0x2c, 0x22, 0x5c, 0x75, 0x30, 0x30, 0x31, 0x61, 0x22, 0x5d] := rfl
 
 /-- steps 2–4: any spelling of the printed tree (compact or pretty) is read back as `v` -/
 theorem c04_reads_back (cfg : Cfg) (src : Src) (ext : Ext) (hext : ExtOK ext) (v : JV)
@@ -145,11 +144,10 @@ example : ∃ bufs, serPretty ext0 [0x20, 0x09] (ofValue exV) = .ok bufs ∧
     parseTop ⟨{ po := true }, .str, .value⟩ bufs.flatten = .ok exV :=
   c04_value_pretty { po := true } .str ext0 ext0_ok [0x20, 0x09] (by decide) exV (by decide) (by decide)
 
-/-- the hypothesis `Ws indent` is needed: with indent `ab` the pretty output is not JSON -/
-example : (serPretty ext0 [0x61, 0x62] (ofValue (.arr [.null]))).map List.flatten
-      = .ok [0x5b, 0x0a, 0x61, 0x62, 0x6e, 0x75, 0x6c, 0x6c, 0x0a, 0x5d] ∧
-    parseTop ⟨{}, .str, .value⟩ [0x5b, 0x0a, 0x61, 0x62, 0x6e, 0x75, 0x6c, 0x6c, 0x0a, 0x5d]
-      = .err .ExpectedSomeValue 3 := ⟨rfl, rfl⟩
+/-- the hypothesis `Ws indent` is needed: with indent `ab` the pretty output of `[null]` is rejected -/
+example : (match serPretty ext0 [0x61, 0x62] (ofValue (.arr [.null])) with
+    | .ok bufs => (match parseTop ⟨{}, .str, .value⟩ bufs.flatten with | .ok _ => false | .err _ _ => true)
+    | .error _ => false) = true := rfl
 
 /-- **C04 without floats**: no hypothesis on the float printer/parser pair at all. -/
 theorem c04_value_nofloat (cfg : Cfg) (src : Src) (ext : Ext) (hext : ExtOK ext) (v : JV)
